@@ -7,6 +7,7 @@ mod local;
 mod mempoold;
 mod multi;
 mod netd;
+mod proposerd;
 mod rig;
 mod seq;
 mod util;
@@ -39,6 +40,7 @@ fn main() {
         "full" => full::main(&rest),
         "hostile" => hostile::main(&rest),
         "fetch" => fetchd::main(&rest),
+        "proposer" => proposerd::main(&rest),
         "agg" => seq::agg_main(&rest),
         "committee" => seq::committee_main(&rest),
         "store" => seq::store_main(&rest),
